@@ -192,6 +192,7 @@ def execute(plan):
     datas = {}
     mutated = False
     with World(bmc=plan.get("dname", "D") if plan.get("bmc") else None) as w:
+        w.long_opts = bool(plan.get("long_opts"))
         w.fresh_per_run = bool(plan.get("fresh"))
         w.path_style = plan.get("path_style", "abs")
         w.rel_dot = bool(plan.get("fresh"))
